@@ -206,14 +206,16 @@ theorem parsed_meta_ok (fx : Bool) (proto : Nat) (resp : Bool) (flags op : Nat) 
 
 /-! ### Iter.RowData / goType -/
 
-theorem goType_safe (t : TI) (h1 : badMapKey t = false) (h2 : nativeCollection t = false) :
-    (goType t).isCrash = false := by
-  fun_induction goType t <;> simp_all [badMapKey, nativeCollection, GT.isCrash]
+/-- goType panics only through reflect.MapOf on a non-comparable key — and not at all once the
+Comparable guard is there (`g = true`, the current tree) — or on a NativeType carrying a collection id -/
+theorem goType_safe_old (t : TI) (h1 : badMapKey t = false) (h2 : nativeCollection t = false) :
+    (goTypeG false t).isCrash = false := by
+  fun_induction goTypeG false t <;> simp_all [badMapKey, nativeCollection, GT.isCrash]
   rename_i k v c1 c2 hk hv hc
   cases k with
   | simple t =>
     simp at h1
-    simp only [goType] at hk
+    simp only [goTypeG] at hk
     split at hk
     · simp_all
     · split at hk
@@ -223,39 +225,59 @@ theorem goType_safe (t : TI) (h1 : badMapKey t = false) (h2 : nativeCollection t
         · split at hk <;> simp_all
   | _ => simp at h1
 
-theorem goTypes_safe (es : List TI) (n : Nat) (h : ∀ t ∈ es, badMapKey t = false ∧ nativeCollection t = false) :
-    (goTypes es n).isCrash = false := by
+theorem goType_safe_new (t : TI) (h2 : nativeCollection t = false) :
+    (goTypeG true t).isCrash = false := by
+  fun_induction goTypeG true t <;> simp_all [nativeCollection, GT.isCrash]
+
+theorem goType_safe (g : Bool) (t : TI) (h1 : g = true ∨ badMapKey t = false) (h2 : nativeCollection t = false) :
+    (goTypeG g t).isCrash = false := by
+  cases g with
+  | true => exact goType_safe_new t h2
+  | false =>
+    rcases h1 with h | h
+    · cases h
+    · exact goType_safe_old t h h2
+
+theorem goTypes_safe (g : Bool) (es : List TI) (n : Nat)
+    (h : ∀ t ∈ es, (g = true ∨ badMapKey t = false) ∧ nativeCollection t = false) :
+    (goTypes g es n).isCrash = false := by
   induction es generalizing n with
   | nil => simp [goTypes, RD.isCrash]
   | cons t r ih =>
     unfold goTypes
-    have ht := goType_safe t (h t (by simp)).1 (h t (by simp)).2
+    have ht := goType_safe g t (h t (by simp)).1 (h t (by simp)).2
     split
     · exact ih _ (fun x hx => h x (by simp [hx]))
     · simp [RD.isCrash]
     · rename_i hc; rw [hc] at ht; simp [GT.isCrash] at ht
     · rename_i hc; rw [hc] at ht; simp [GT.isCrash] at ht
 
-/-- a column is fine for MapScan / SliceMap when (each element of a tuple column, or the column type
-itself) has no map with a non-comparable key -/
+/-- a column is fine for the OLD goType (no Comparable guard) when (each element of a tuple column, or
+the column type itself) has no map with a non-comparable key -/
 def colOk : TI → Bool
-  | .tuple es => es.all (fun t => !badMapKey t && !nativeCollection t)
-  | t => !badMapKey t && !nativeCollection t
+  | .tuple es => es.all (fun t => !badMapKey t)
+  | t => !badMapKey t
 
-theorem rowData_safe (cols : List TI) (n : Nat) (h : ∀ c ∈ cols, colOk c = true) : (rowData cols n).isCrash = false := by
+/-- NativeType values carrying a collection id do not occur in what readTypeInfo builds -/
+def colNative : TI → Bool
+  | .tuple es => es.all (fun t => !nativeCollection t)
+  | t => !nativeCollection t
+
+theorem rowData_safe (g : Bool) (cols : List TI) (n : Nat)
+    (h : ∀ c ∈ cols, (g = true ∨ colOk c = true) ∧ colNative c = true) : (rowDataG g cols n).isCrash = false := by
   induction cols generalizing n with
-  | nil => simp [rowData, RD.isCrash]
+  | nil => simp [rowDataG, RD.isCrash]
   | cons c r ih =>
     have hc := h c (by simp)
-    have hr : ∀ x ∈ r, colOk x = true := fun x hx => h x (by simp [hx])
-    have generic : ∀ t : TI, badMapKey t = false → nativeCollection t = false →
-        (match goType t with
-          | .ok _ => rowData r (n + 1)
+    have hr : ∀ x ∈ r, (g = true ∨ colOk x = true) ∧ colNative x = true := fun x hx => h x (by simp [hx])
+    have generic : ∀ t : TI, (g = true ∨ badMapKey t = false) → nativeCollection t = false →
+        (match goTypeG g t with
+          | .ok _ => rowDataG g r (n + 1)
           | .err => .err
           | .crashMapOf => .crashMapOf
           | .crashAssert => .crashAssert).isCrash = false := by
       intro t h1 h2
-      have ht := goType_safe t h1 h2
+      have ht := goType_safe g t h1 h2
       split
       · exact ih _ hr
       · simp [RD.isCrash]
@@ -263,16 +285,21 @@ theorem rowData_safe (cols : List TI) (n : Nat) (h : ∀ c ∈ cols, colOk c = t
       · rename_i hx; rw [hx] at ht; simp [GT.isCrash] at ht
     cases c with
     | tuple es =>
-      simp only [rowData]
-      simp only [colOk, List.all_eq_true] at hc
-      have := goTypes_safe es n (fun t ht => by have := hc t ht; simp at this; exact this)
+      simp only [rowDataG]
+      simp only [colOk, colNative, List.all_eq_true] at hc
+      have := goTypes_safe g es n (fun t ht => by
+        refine ⟨?_, ?_⟩
+        · rcases hc.1 with h | h
+          · exact Or.inl h
+          · have := h t ht; simp at this; exact Or.inr this
+        · have := hc.2 t ht; simpa using this)
       split
       · exact ih _ hr
       · rename_i o hne
         exact this
-    | simple t => simp only [rowData]; simp [colOk] at hc; exact generic _ hc.1 hc.2
-    | list e => simp only [rowData]; simp [colOk] at hc; exact generic _ hc.1 hc.2
-    | map k v => simp only [rowData]; simp [colOk] at hc; exact generic _ hc.1 hc.2
-    | udt fs => simp only [rowData]; simp [colOk] at hc; exact generic _ hc.1 hc.2
+    | simple t => simp only [rowDataG]; simp [colOk, colNative] at hc; exact generic _ hc.1 hc.2
+    | list e => simp only [rowDataG]; simp [colOk, colNative] at hc; exact generic _ hc.1 hc.2
+    | map k v => simp only [rowDataG]; simp [colOk, colNative] at hc; exact generic _ hc.1 hc.2
+    | udt fs => simp only [rowDataG]; simp [colOk, colNative] at hc; exact generic _ hc.1 hc.2
 
 end C05Rows
